@@ -346,10 +346,19 @@ class L1MinusL2Norm(Functional):
         else:
             vs = snp.sign(v)
 
+        # For v = 0 and beta > 1 the minimisers are the one-sparse vectors of
+        # magnitude (beta - 1) * alpha (for beta <= 1 it is the zero vector).
+        u0 = (
+            snp.zeros(v.shape, dtype=v.dtype)
+            .ravel()
+            .at[0]
+            .set(snp.maximum(beta - 1.0, 0.0) * alpha)
+            .reshape(v.shape)
+        )
         return snp.where(
             vamx > 0.0,
             L1MinusL2Norm._prox_vamx_gt_0(v, va, vs, vamx, alpha, beta),
-            snp.zeros(v.shape, dtype=v.dtype),
+            u0,
         )
 
 
